@@ -8,10 +8,13 @@ compiles it to; Python's float() is correctly rounded like rustc's parser) for e
 an exact pair (mantissa, decimal exponent) for the table theorems."""
 import os, re, struct, sys
 ROOT = os.path.dirname(os.path.dirname(os.path.abspath(__file__)))
-REPO = "/repo"
+REPO = os.environ.get("PDS_REPO", "/repo")  # PDS_REPO: only for background sweeps on a snapshot of /repo (tools/thorough_all.sh)
+
+class Unrecognised(Exception):
+    pass
 
 def die(msg):
-    sys.stderr.write("translate.py: " + msg + "\n"); sys.exit(1)
+    raise Unrecognised(msg)
 
 def write_if_changed(path, text):
     if os.path.exists(path) and open(path).read() == text:
@@ -75,11 +78,12 @@ def chunked(items, per=8, indent="    "):
         lines.append(indent + ", ".join(items[i:i+per]))
     return ",\n".join(lines)
 
-def main():
-    # ---- scalar constants ----------------------------------------------------------------
-    out = ["/- GENERATED by tools/translate.py from /repo sources; do not edit. -/", "namespace Pds.Generated", ""]
+def group_cuckoo():
     src = strip_comments(open(os.path.join(REPO, "src/filters/cuckoofilter.rs")).read())
-    out.append("def maxNumKicks : Nat := %d" % int(find_const(src, "MAX_NUM_KICKS")[1]))
+    return ["def maxNumKicks : Nat := %d" % int(find_const(src, "MAX_NUM_KICKS")[1])]
+
+def group_hll_consts():
+    out = []
     src = strip_comments(open(os.path.join(REPO, "src/hyperloglog/mod.rs")).read())
     m = re.search(r"const K: usize = (\d+);", src)
     if not m: die("K not found")
@@ -88,9 +92,11 @@ def main():
     m = re.search(r"fn am\(&self\) -> f64 \{(.*?)\n    \}", src, re.S)
     if not m: die("am() not found")
     body = m.group(1)
-    pat = (r"\s*let m = self\.registers\.len\(\);\s*if m >= (\d+) \{\s*([\d.]+) / \(1\. \+ ([\d.]+) / \(m as f64\)\)\s*\}"
-           r" else if m >= (\d+) \{\s*([\d.]+)\s*\} else if m >= (\d+) \{\s*([\d.]+)\s*\} else \{\s*([\d.]+)\s*\}\s*")
-    mm = re.fullmatch(pat, body, re.S)
+    # whitespace-insensitive; float literals may be written 1. / 1.0 / 1.0_f64
+    F = r"([\d.]+?)0*(?:_?f64)?"
+    pat = (r"letm=self\.registers\.len\(\);ifm>=(\d+)\{" + F + r"/\(1\.0*(?:_?f64)?\+" + F + r"/\(masf64\)\)\}"
+           r"elseifm>=(\d+)\{" + F + r"\}elseifm>=(\d+)\{" + F + r"\}else\{" + F + r"\}")
+    mm = re.fullmatch(pat, re.sub(r"\s+", "", body))
     if not mm: die("am() has an unrecognised shape")
     g = mm.groups()
     for i, x in enumerate((g[0], g[3], g[5])):
@@ -100,14 +106,15 @@ def main():
     out.append("def amCut : Array Nat := #[%s, %s, %s]" % (g[0], g[3], g[5]))
     out.append("def amBits : Array UInt64 := #[%s]  -- %s" % (", ".join("0x%016x" % f64bits(x) for x in (g[1], g[2], g[4], g[6], g[7])), ", ".join((g[1], g[2], g[4], g[6], g[7]))))
     out.append("def amDec : Array (Int × Nat) := #[%s]" % ", ".join("(%d, %d)" % dec_exact(x) for x in (g[1], g[2], g[4], g[6], g[7])))
+    return out
+
+def group_reservoir():
     src = strip_comments(open(os.path.join(REPO, "src/reservoirsampling.rs")).read())
     m = re.search(r"let t = self\.k\.saturating_mul\((\d+)\);", src) or re.search(r"let t = self\.k \* (\d+);", src)
     if not m: die("reservoir phase factor not found")
-    out.append("def reservoirPhaseFactor : Nat := %s" % m.group(1))
-    out += ["", "end Pds.Generated", ""]
-    write_if_changed(os.path.join(ROOT, "lean/Pds/Generated/Consts.lean"), "\n".join(out))
+    return ["def reservoirPhaseFactor : Nat := %s" % m.group(1)]
 
-    # ---- HyperLogLog tables ----------------------------------------------------------------
+def group_hll_tables():
     src = strip_comments(open(os.path.join(REPO, "src/hyperloglog/data.rs")).read())
     out = ["/- GENERATED by tools/translate.py from /repo/src/hyperloglog/data.rs; do not edit. -/", "set_option maxRecDepth 8000", "namespace Pds.Generated", ""]
     for nm, ln in (("THRESHOLD_DATA_OFFSET", "thresholdOffset"), ("RAW_ESTIMATE_DATA_OFFSET", "rawOffset"), ("BIAS_DATA_OFFSET", "biasOffset")):
@@ -131,7 +138,49 @@ def main():
     out.append("def pow2minxBitsB : Array UInt64 := #[\n" + chunked(["0x%016x" % f64bits(x) for x in p2[128:]]) + "]")
     out.append("def pow2minxBits : Array UInt64 := pow2minxBitsA ++ pow2minxBitsB")
     out += ["", "end Pds.Generated", ""]
-    write_if_changed(os.path.join(ROOT, "lean/Pds/Generated/HllData.lean"), "\n".join(out))
+    return out
+
+def previous_group(path, name):
+    """lines of group `name` in the Consts file generated last time (kept when the group's source is
+    not recognised now, so that the file still compiles; the group is reported as failed)"""
+    if not os.path.exists(path):
+        return None
+    txt = open(path).read()
+    m = re.search(r"-- group: %s\n(.*?)-- end group: %s\n" % (name, name), txt, re.S)
+    return m.group(1).rstrip("\n").split("\n") if m else None
+
+def main():
+    """Each group of constants is translated on its own; a group whose source is no longer recognised is
+    reported in work/translate_status.json (the checks of the properties that depend on it then count
+    the tie as broken) and keeps its previously generated text, so that the other groups stay tied."""
+    import json
+    status = {}
+    cpath = os.path.join(ROOT, "lean/Pds/Generated/Consts.lean")
+    out = ["/- GENERATED by tools/translate.py from /repo sources; do not edit. -/", "namespace Pds.Generated", ""]
+    for name, fn in (("cuckoo", group_cuckoo), ("hll_consts", group_hll_consts), ("reservoir", group_reservoir)):
+        try:
+            lines = fn()
+            status[name] = "ok"
+        except (Unrecognised, OSError, ValueError) as ex:
+            status[name] = "unrecognised: %s" % ex
+            lines = previous_group(cpath, name)
+            if lines is None:
+                sys.stderr.write("translate.py: %s: %s (and no previous output to keep)\n" % (name, ex)); sys.exit(1)
+        out += ["-- group: " + name] + lines + ["-- end group: " + name]
+    out += ["", "end Pds.Generated", ""]
+    write_if_changed(cpath, "\n".join(out))
+    try:
+        write_if_changed(os.path.join(ROOT, "lean/Pds/Generated/HllData.lean"), "\n".join(group_hll_tables()))
+        status["hll_tables"] = "ok"
+    except (Unrecognised, OSError, ValueError) as ex:
+        status["hll_tables"] = "unrecognised: %s" % ex
+        if not os.path.exists(os.path.join(ROOT, "lean/Pds/Generated/HllData.lean")):
+            sys.stderr.write("translate.py: hll_tables: %s\n" % ex); sys.exit(1)
+    os.makedirs(os.path.join(ROOT, "work"), exist_ok=True)
+    json.dump(status, open(os.path.join(ROOT, "work", "translate_status.json"), "w"), indent=1)
+    for k, v in status.items():
+        if v != "ok":
+            sys.stderr.write("translate.py: group %s: %s\n" % (k, v))
 
 if __name__ == "__main__":
     main()
